@@ -1,10 +1,14 @@
 import IbexModel
 import Driver.Proto
 import Driver.OpsItv
+import Driver.OpsBox
 open Ibex Ibex.Proto
 
 def dispatch (op : String) (ins outs : List String) : String :=
   match Ibex.Driver.opsItv op ins outs with
+  | some r => r
+  | none =>
+  match Ibex.Driver.opsBox op ins outs with
   | some r => r
   | none => "bad-op"
 
